@@ -12,6 +12,17 @@ of the genotype summary statistics, i.e. the expressions on which the C09 theore
   k_ph_denom/k_ph_afreq, k_ph_maf_mask/k_ph_maf                      (same expressions of DensePhasedGenotypeMatrix)
   k_gt_nclass        self.ploidy + 1                                 (first dimension of the gtcount output, both classes)
 
+  k_tafreq_recip/k_tafreq    1.0 / ploidy ; rnphase * <taxon counts>           (tafreq, both classes: k_ / k_ph_)
+  k_gtfreq_recip/k_gtfreq    1.0 / ntaxa ; recip * <genotype counts>           (gtfreq, both classes)
+  k_meh_compl, k_meh_scale   numpy.dot(p, 1.0 - p) ; ploidy / nvrnt            (DenseGenotypeMatrix.meh; exact rationals)
+  k_ph_meh_term/k_ph_meh_scale  (p * (1.0 - p)).sum() ; out *= ploidy / nvrnt  (DensePhasedGenotypeMatrix.meh)
+  k_fmt_m101                 self.mat - 1 / `out -= 1`                          (mat_asformat "{-1,0,1}", both classes)
+  k_fmt_shift, k_fmt_mask    self.mat - 1.0 ; view == 0                        (mat_asformat "{-1,m,1}", both classes; the statements
+                                                                                around them - the three format tests, `{0,1,2}` returning a
+                                                                                copy / the phase sum, the per-column loop `view = out[:, i]`,
+                                                                                `mean = view.mean()`, `out[mask, i] = mean` - are matched
+                                                                                textually: a rewritten branch is refused, fail closed)
+
 `Proofs/C09_Kernel.v` proves `generated = hand model` for each by `reflexivity`, and `Props/C09.v` states the boundary
 theorem about the *generated* definitions, so a changed expression (`<` for `<=`, `(1.0/denom)*count`, `nphase + 1`) makes
 `Props/C09.vo` fail to build whatever the random cases exercise.  Fail closed: every selector demands exactly one match,
@@ -25,6 +36,13 @@ PHAS = "pybrops/popgen/gmat/DensePhasedGenotypeMatrix.py"
 
 
 from translate.kernelkit import bind, elementwise_bool, shape_first_dim as _shape_first_dim
+
+
+def _only_cast_after(fn, target, first):
+    """every assignment to `target` after the first `first` ones must be the dtype cast `dtype.type(target)`"""
+    for a in P.assignments_to(fn, target)[first:]:
+        if ast.unparse(a.value) != "dtype.type(%s)" % target:
+            raise P.Untranslatable("%s: unexpected re-assignment %s = %s" % (fn.name, target, ast.unparse(a.value)))
 
 
 def translate(repo, gen_dir):
@@ -66,6 +84,92 @@ def translate(repo, gen_dir):
         defs.append(P.definition("k_%sgt_nclass" % tag, [("ploidy", "Z"), ("nphase", "Z")], "Z",
                                  P.to_coq(e, Z({"self.ploidy": "ploidy", "self.nphase": "nphase"})), "%s.gtcount: %s = %s" % (cls, nm, src(e))))
 
+        # ---- tafreq: rnphase = 1.0 / ploidy ; out = rnphase * <per-taxon counts>
+        taxon_txt = "self._mat" if not tag else "self._mat.sum(self.phase_axis)"
+        fn = P.find_function(repo, rel, cls + ".tafreq")
+        e = P.the_assignment(fn, "rnphase")
+        defs.append(P.definition("k_%stafreq_recip" % tag, [("ploidy", "float")], "float", P.to_coq(e, F({"self.ploidy": "ploidy"})),
+                                 "%s.tafreq: rnphase = %s" % (cls, src(e))))
+        e = P.the_assignment(fn, "out", index=0, count=2)
+        defs.append(P.definition("k_%stafreq" % tag, [("rnphase", "float"), ("x", "float")], "float",
+                                 P.to_coq(bind(e, {taxon_txt: "x"}), F({"rnphase": "rnphase", "x": "x"})), "%s.tafreq: out = %s" % (cls, src(e))))
+        _only_cast_after(fn, "out", 1)
+        # ---- gtfreq: recip = 1.0 / ntaxa ; out = recip * self.gtcount()
+        fn = P.find_function(repo, rel, cls + ".gtfreq")
+        e = P.the_assignment(fn, "recip")
+        defs.append(P.definition("k_%sgtfreq_recip" % tag, [("ntaxa", "float")], "float", P.to_coq(e, F({"self.ntaxa": "ntaxa"})),
+                                 "%s.gtfreq: recip = %s" % (cls, src(e))))
+        e = P.the_assignment(fn, "out", index=0, count=2)
+        defs.append(P.definition("k_%sgtfreq" % tag, [("recip", "float"), ("c", "float")], "float",
+                                 P.to_coq(bind(e, {"self.gtcount()": "c"}), F({"recip": "recip", "c": "c"})), "%s.gtfreq: out = %s" % (cls, src(e))))
+        _only_cast_after(fn, "out", 1)
+        # ---- meh (exact rationals: the float summation order of dot / sum is not modelled, the formula is)
+        Qc = lambda env: P.Ctx("Q", env)
+        fn = P.find_function(repo, rel, cls + ".meh")
+        if src(P.the_assignment(fn, "p")) != "self.afreq()":
+            raise P.Untranslatable("%s.meh: p is no longer self.afreq()" % cls)
+        e = P.the_assignment(fn, "out", index=0, count=2)
+        aug = [a for a in P.assignments_to(fn, "out", include_aug=True) if isinstance(a, ast.AugAssign)]
+        if len(aug) != 1 or not isinstance(aug[0].op, ast.Mult):
+            raise P.Untranslatable("%s.meh: expected exactly one `out *= ...`" % cls)
+        if not tag:
+            if not (isinstance(e, ast.Call) and src(e.func) == "numpy.dot" and len(e.args) == 2 and not e.keywords and src(e.args[0]) == "p"):
+                raise P.Untranslatable("%s.meh: out is no longer numpy.dot(p, ...)" % cls)
+            defs.append(P.definition("k_meh_compl", [("p", "Q")], "Q", P.to_coq(e.args[1], Qc({"p": "p"})), "%s.meh: out = %s" % (cls, src(e))))
+            if src(aug[0].value) != "rnphase":
+                raise P.Untranslatable("%s.meh: out is no longer scaled by rnphase" % cls)
+            sc = P.the_assignment(fn, "rnphase")
+        else:
+            if not (isinstance(e, ast.Call) and isinstance(e.func, ast.Attribute) and e.func.attr == "sum" and not e.args and not e.keywords):
+                raise P.Untranslatable("%s.meh: out is no longer (<term>).sum()" % cls)
+            defs.append(P.definition("k_ph_meh_term", [("p", "Q")], "Q", P.to_coq(e.func.value, Qc({"p": "p"})), "%s.meh: out = %s" % (cls, src(e))))
+            sc = aug[0].value
+        defs.append(P.definition("k_%smeh_scale" % tag, [("ploidy", "Q"), ("nvrnt", "Q")], "Q",
+                                 P.to_coq(sc, Qc({"self.ploidy": "ploidy", "self.nvrnt": "nvrnt"})), "%s.meh: out *= %s" % (cls, src(sc))))
+        _only_cast_after(fn, "out", 1)
+        # ---- mat_asformat: the three branches
+        fn = P.find_function(repo, rel, cls + ".mat_asformat")
+        tests = [src(t) for t in P.if_tests(fn)]
+        if tests != ["format == '{0,1,2}'", "format == '{-1,0,1}'", "format == '{-1,m,1}'"]:
+            raise P.Untranslatable("%s.mat_asformat: format tests are %r" % (cls, tests))
+        dos_txt = "self.mat" if not tag else "self.mat.sum(0, dtype=self.mat.dtype)"
+        rets = [src(P.the_return(fn, index=i)) for i in range(3)]
+        if rets != [("self.mat.copy()" if not tag else dos_txt), "out", "out"] or len([n for n in ast.walk(fn) if isinstance(n, ast.Return)]) != 3:
+            raise P.Untranslatable("%s.mat_asformat: returns are %r" % (cls, rets))
+        e0 = P.the_assignment(fn, "out", index=0, count=2); e1 = P.the_assignment(fn, "out", index=1, count=2)
+        augs = [a for a in P.assignments_to(fn, "out", include_aug=True) if isinstance(a, ast.AugAssign)]
+        if not tag:
+            if augs: raise P.Untranslatable("%s.mat_asformat: unexpected in-place update of out" % cls)
+            m101 = bind(e0, {"self.mat": "x"}); shift = bind(e1, {"self.mat": "x"})
+        else:
+            if len(augs) != 1 or src(e0) != dos_txt:
+                raise P.Untranslatable("%s.mat_asformat: expected out = %s followed by one in-place update" % (cls, dos_txt))
+            m101 = ast.BinOp(left=ast.Name(id="x", ctx=ast.Load()), op=augs[0].op, right=augs[0].value)
+            shift = bind(e1, {"self.mat.sum(0)": "x"})
+        defs.append(P.definition("k_%sfmt_m101" % tag, [("x", "Z")], "Z", P.to_coq(m101, Z({"x": "x"})),
+                                 "%s.mat_asformat {-1,0,1}: %s" % (cls, src(e0) if not tag else "out = %s; out %s= %s" % (src(e0), {ast.Sub: "-", ast.Add: "+"}.get(type(augs[0].op), "?"), src(augs[0].value)))))
+        # (dosages are small integers: the float subtraction `- 1.0` is exact, the shifted value is kept as an integer)
+        defs.append(P.definition("k_%sfmt_shift" % tag, [("x", "Z")], "Z", P.to_coq(shift, Z({"x": "x"})),
+                                 "%s.mat_asformat {-1,m,1}: out = %s" % (cls, src(e1))))
+        e = P.the_assignment(fn, "mask")
+        defs.append(P.definition("k_%sfmt_mask" % tag, [("x", "Z")], "bool", P.to_coq(e, Z({"view": "x"}), "bool"),
+                                 "%s.mat_asformat {-1,m,1}: mask = %s" % (cls, src(e))))
+        loops = [n for n in ast.walk(fn) if isinstance(n, (ast.For, ast.While))]
+        if len(loops) != 1 or not isinstance(loops[0], ast.For) or src(loops[0].target) != "i" or src(loops[0].iter) != "range(out.shape[1])":
+            raise P.Untranslatable("%s.mat_asformat {-1,m,1}: expected exactly one loop `for i in range(out.shape[1])`" % cls)
+        body = [src(st) for st in loops[0].body]
+        # (the mask statement itself is the kernel k_fmt_mask translated above; the other three are matched textually)
+        if len(body) != 4 or [body[0], body[1], body[3]] != ["view = out[:, i]", "mean = view.mean()", "out[mask, i] = mean"] \
+                or body[2] != "mask = " + src(e):
+            raise P.Untranslatable("%s.mat_asformat {-1,m,1}: the per-column loop body is %r" % (cls, body))
+        # every statement of the function is one of the matched ones (nothing else may touch `out`)
+        known = {"out = " + src(e0), "out = " + src(e1), "return out", "return " + rets[0]} | set(body) | \
+                {src(a) for a in augs}      # (the in-place update of the phased {-1,0,1} branch is the kernel k_ph_fmt_m101)
+        for st in ast.walk(fn):
+            if isinstance(st, (ast.Assign, ast.AugAssign, ast.AnnAssign, ast.Return, ast.Expr, ast.Delete, ast.With, ast.Try)) \
+                    and not (isinstance(st, ast.Expr) and isinstance(st.value, ast.Constant)) and src(st) not in known:
+                raise P.Untranslatable("%s.mat_asformat: unexpected statement `%s`" % (cls, src(st)))
+
     # ---- fixation / polymorphism flags (the phased class inherits afixed and overrides apoly with an all()-test on alleles,
     #      which is integer code covered by the model and the correspondence, not a float kernel)
     fn = P.find_function(repo, UNPH, "DenseGenotypeMatrix.afixed")
@@ -87,7 +191,7 @@ def translate(repo, gen_dir):
                 raise P.Untranslatable("DensePhasedGenotypeMatrix no longer overrides apoly: the model's apoly_ph does not describe it")
 
     text = (P.HEADER % "harness/translate/c09_kernel.py") + \
-        "From Coq Require Import ZArith Bool PrimFloat.\nLocal Open Scope Z_scope.\n\n" + "\n".join(defs)
+        "From Coq Require Import ZArith QArith Bool PrimFloat.\nLocal Open Scope Z_scope.\n\n" + "\n".join(defs)
     path = os.path.join(gen_dir, "C09_Kernel.v")
     P.write_if_changed(path, text)
     import hashlib
